@@ -631,12 +631,25 @@ def main(run: Run) -> int:
         run.evaluations += n
         r["n"] = 0
         run.absorb([r])
-    run.note(deviation_bound=_BOUND)
+    # field laws (arguments are vector fields / parametrised curves): hand-built driver
+    from . import c02fields
+    fitems = c02fields.items(run.thorough)
+    before = run.evaluations
+    for r in pmap(c02fields.work, rotate(fitems, run.seed * 13), chunksize=1):
+        n = r.pop("n")
+        run.evaluations += n
+        r["n"] = 0
+        run.absorb([r])
+    run.note(deviation_bound=_BOUND, field_law_modules=len(c02fields.MODULES),
+        field_law_cases=run.evaluations - before,
+        field_space="fields with <= 2 terms c*x^i*y^j*z^k*t^l of degree <= 2 in any component "
+        "slots; Ampere: all pairs of single-term H and D; 3 curves / 3 surfaces; 4 unit spellings")
     return run.finish(
         rule="per calculation function: default tuple + every tuple within <= k deviations "
         "(magnitude x1e3, x1e-3, sign; spelling kilo, milli, cm-g-min) + all-parameters respelled; "
         "distinct = distinct (function, deviation set) keys whose call returned; vector laws: every "
-        "ordered pair of forms solved for different unknowns x vector length 1..3",
+        "ordered pair of forms solved for different unknowns x vector length 1..3; field-law "
+        "modules: every field of the polynomial menu against the law written in the module header",
         exhaustive=True,
         assumptions=["residual judged at 1e-6 relative (or a sign change within 1e-9 of the output)",
             "functions whose law contains derivatives / integrals / sums / applied functions are "
@@ -644,6 +657,9 @@ def main(run: Run) -> int:
 
 
 def replay(case: dict) -> list[str]:
+    if case.get("fields"):
+        from . import c02fields
+        return c02fields.replay(case)
     mod = catalogue.load(case["module"])
     if "pair" in case:
         fs = dict(catalogue.functions(mod))
